@@ -44,3 +44,16 @@ Definition add_set_with (s : store) (id : nat) (items : list dbuild) : store * o
           (set_sidx (set_sets s (sets s ++ [Some d])) (id_put (sidx s) id h), OOk h)
       end
   end.
+
+(* annotate_from_iter (and an ADD query, annotate_from_file): stops at the first error; the third
+   component counts the elements done before it *)
+Fixpoint annotate_batch (s : store) (l : list abuild) : store * out * nat :=
+  match l with
+  | [] => (s, OOk 0, 0)
+  | b :: l' =>
+      match annotate s b with
+      | (s1, OOk _) => let '(s2, r, n) := annotate_batch s1 l' in (s2, r, S n)
+      | (s1, r) => (s1, r, 0)
+      end
+  end.
+
